@@ -1,6 +1,5 @@
 package verifsim
 
-func genSwitch(r *rng, i int) *Spec       { return genSmoke(r) }
 func genLifecycle(r *rng, i int) *Spec    { return genSmoke(r) }
 func genGates(r *rng, i int) *Spec        { return genSmoke(r) }
 func genMembership(r *rng, i int) *Spec   { return genSmoke(r) }
